@@ -51,7 +51,9 @@ CLAIMS = {
         text="Proved: (i) the purity traits, regenerated from the dialect definitions on every run, give CSE/DCE no licence to merge "
              "or drop any statement that produces a device-visible event (C04_event_stmts_impure) and the statements the pipeline "
              "needs to be removable are pure (C04_expected_pure); (ii) the route dimension 'spec injected at compile time vs supplied "
-             "at run time' preserves result, events and failures for every program (C04_spec_route, from the injection theorem). "
+             "at run time' preserves result, events and failures for every program (C04_spec_route, from the injection theorem); "
+             "the reference evaluator is monotone in its fuel, so 'evaluating the source directly' is one partial function "
+             "(C04_source_semantics_deterministic / _mono, from Lemmas/LangMono.lean). "
              "Partial by nature: kirin's fold/inline/unroll/typeinfer/verify passes are not modelled; that they preserve events is "
              "carried by the correspondence: generated programs x argument tuples x compilation routes (pairwise-covering subset of "
              "the 128 option combinations in quick, all 128 in thorough), each compiled kernel executed by the event-logging "
